@@ -24,6 +24,12 @@ def is_signed(event, config):
     """
     if not event.verify():
         raise StorageError("invalid: Bad signature")
+    # verify() checks the signature against the hash it computes itself,
+    # it does not compare that hash with the id the event claims to have
+    if event.id != event.compute_id(
+        event.pubkey, event.created_at, event.kind, event.tags, event.content
+    ):
+        raise StorageError("invalid: Bad id")
 
 
 def is_recent(event, config):
